@@ -63,6 +63,47 @@ pub fn all() -> Vec<Prop> {
             assumptions: bft_assumptions,
         },
         Prop {
+            id: "C02",
+            level: "exploration",
+            rule: "history level: one evaluation = one simulated cluster execution; the monitor counts, per (view, block, hash), the weight of correct commit voters plus the whole Byzantine weight (= what the adversary could certify) and checks uniqueness per block number, no later correct vote against or below a potentially certified block, and that every certificate seen in correct nodes' messages/stores is for the ledger block; non-trivial = a block became potentially certified and a timeout certificate was involved; distinct = distinct event-log fingerprint",
+            batches: |t| bft_batches(&[("faultfree", 16), ("byzheavy", 200)], &[("faultfree", 100), ("byzheavy", 6000)], t),
+            expected_probes: || vec!["timeout_qc_without_high_vote", "timeout_qc_three_or_more_distinct_votes"],
+            components: bft_components,
+            assumptions: bft_assumptions,
+        },
+        Prop {
+            id: "C05",
+            level: "exploration",
+            rule: "one evaluation = one simulated cluster execution; after every replica step a snapshot (hook H3) is checked: view / high certificates monotone, current view justified by a held certificate, every held or emitted certificate genuine w.r.t. the run's signing history (not the repo's verify), every emitted message verifies in isolation; non-trivial = at least 3 views reached and a block committed; distinct = distinct event-log fingerprint; abstract state = (event, phase, certificate offsets, vote/certificate relation, message view relative to own, outcome class)",
+            batches: |t| bft_batches(&[("faultfree", 24), ("swarm", 200)], &[("faultfree", 200), ("swarm", 6000)], t),
+            expected_probes: || vec![],
+            components: bft_components,
+            assumptions: bft_assumptions,
+        },
+        Prop {
+            id: "C06",
+            level: "exploration",
+            rule: "one evaluation = an adversarial prefix (all fault kinds) followed by the fair synchronous suffix; progress oracle: every correct node's durable height grows before 5 views with correct leaders have been entered and left by all correct nodes, and views never stop advancing for 4.5 timeouts; non-trivial = the prefix injected at least one fault and left the nodes in different views or heights; distinct = distinct event-log fingerprint",
+            batches: |t| bft_batches(&[("live-faultfree", 16), ("live", 160)], &[("live-faultfree", 100), ("live", 5000)], t),
+            expected_probes: || vec!["suffix_progress"],
+            components: bft_components,
+            assumptions: || {
+                let mut a = bft_assumptions();
+                a.push("fair suffix: all correct nodes up, every message between correct nodes delivered within one round, block sync serves committed blocks, storage prompt, equal clock rates; Byzantine validators silent or misbehaving without flooding");
+                a.push("bound L = 5 correct-leader views, calibrated on the unchanged tree then frozen");
+                a
+            },
+        },
+        Prop {
+            id: "C16",
+            level: "exploration",
+            rule: "replica half (E1): floods of validly signed votes for far-future views from Byzantine validators; after every replica step the sizes of the vote caches must stay within bounds that depend on the committee size only; non-trivial = at least one flood message delivered; distinct = distinct event-log fingerprint",
+            batches: |t| bft_batches(&[("flood", 120)], &[("flood", 3000)], t),
+            expected_probes: || vec!["several_partial_certificates"],
+            components: bft_components,
+            assumptions: bft_assumptions,
+        },
+        Prop {
             id: "C10",
             level: "exploration",
             rule: "message level (E1): one evaluation = one simulated cluster execution in which Byzantine validators send well-signed consensus messages including absurd field values; a panic anywhere in code under test is a violation; non-trivial = at least one Byzantine message was delivered and at least one block committed; distinct = distinct event-log fingerprint",
@@ -80,7 +121,7 @@ pub fn find(id: &str) -> Option<Prop> {
 
 fn bft_profile(mode: &str) -> bft::Profile {
     match mode {
-        "faultfree" => bft::Profile::FaultFree,
+        "faultfree" | "live-faultfree" => bft::Profile::FaultFree,
         "small" => bft::Profile::Small,
         _ => bft::Profile::Swarm,
     }
@@ -99,8 +140,29 @@ fn bft_case(mode: &str, seed: u64) -> (bft::Cfg, Vec<bft::Action>, bft::RunOpts)
         cfg.faults.crash = cfg.faults.crash.max(4);
         cfg.faults.crash_in_write = cfg.faults.crash_in_write.max(5);
     }
-    let plan = bft::gen_plan(&cfg);
-    let opts = bft::RunOpts::default();
+    if mode == "flood" {
+        cfg.faults.byz = cfg.faults.byz.max(25);
+        cfg.faults.crash = 0;
+        cfg.faults.crash_in_write = 0;
+    }
+    let mut plan = bft::gen_plan(&cfg);
+    if mode == "flood" {
+        // Half of the Byzantine actions become floods.
+        let mut rng = crate::kit::stream(seed, "flood");
+        for a in plan.iter_mut() {
+            if let bft::Action::Byz { kind, .. } = a {
+                if rand::Rng::gen_bool(&mut rng, 0.5) {
+                    *kind = 15;
+                }
+            }
+        }
+    }
+    let mut opts = bft::RunOpts::default();
+    if mode.starts_with("live") {
+        opts.liveness = true;
+        // The prefix is shorter: the suffix costs as much again.
+        plan.truncate(plan.len() * 2 / 3);
+    }
     (cfg, plan, opts)
 }
 
@@ -190,6 +252,7 @@ pub fn replay_case(engine: &str, doc: &Value) -> (CaseResult, Vec<String>) {
             let opts = bft::RunOpts {
                 keep_log: true,
                 focus: doc["property"].as_str().map(|s| s.to_string()),
+                liveness: mode.starts_with("live"),
                 ..Default::default()
             };
             let out = bft::run_one(&cfg, &plan, &opts);
@@ -214,7 +277,11 @@ pub fn minimise_replay(engine: &str, path: &str, prop: &str, class: &str) -> Opt
                 let out = bft::run_one(
                     &cfg,
                     plan,
-                    &bft::RunOpts { focus: Some(prop.to_string()), ..Default::default() },
+                    &bft::RunOpts {
+                        focus: Some(prop.to_string()),
+                        liveness: doc["mode"].as_str().unwrap_or("").starts_with("live"),
+                        ..Default::default()
+                    },
                 );
                 out.violations.into_iter().find(|v| v.property == prop && v.class == class)
             };
